@@ -30,24 +30,25 @@ class Undecided(Exception):
 class Query:
     def __init__(self, name, kind, unit, entry, enforce=None, cfile=None, defines=(), unwind=None, timeout=600,
                  replace=(), loop_contracts=False, backend=None, replay=None, bounded=None, functions=(),
-                 object_bits=None, tier='quick', extra_cbmc=(), note=''):
+                 object_bits=None, tier='quick', extra_cbmc=(), note='', unwind_assert=True):
         self.name = name; self.kind = kind; self.unit = unit; self.entry = entry; self.enforce = enforce
         self.cfile = cfile; self.defines = list(defines); self.unwind = unwind; self.timeout = timeout
         self.replace = list(replace); self.loop_contracts = loop_contracts; self.backend = backend
         self.replay = replay; self.bounded = bounded; self.functions = list(functions)
-        self.object_bits = object_bits; self.tier = tier; self.extra_cbmc = list(extra_cbmc); self.note = note
-        self.input_stop = 'spec_step' if kind == 'harness' else None   # harness inputs are complete when the spec is first called
+        self.object_bits = object_bits; self.tier = tier; self.extra_cbmc = list(extra_cbmc); self.note = note; self.unwind_assert = unwind_assert
+        self.input_stop = 'spec_step' if kind == 'harness' else None
+   # harness inputs are complete when the spec is first called
 
 def _limits():
     import resource
     resource.setrlimit(resource.RLIMIT_AS, (MEM_KB * 1024, MEM_KB * 1024))
     os.setsid()
 
-def sh(cmd, cwd, timeout, out=None):
+def sh(cmd, cwd, timeout, out=None, limit=True):
     t0 = time.time()
     try:
         p = subprocess.Popen(cmd, cwd=cwd, stdout=subprocess.PIPE if out is None else open(out, 'w'),
-                             stderr=subprocess.PIPE, preexec_fn=_limits, text=True)
+                             stderr=subprocess.PIPE, preexec_fn=_limits if limit else os.setsid, text=True)
         try:
             so, se = p.communicate(timeout=timeout)
         except subprocess.TimeoutExpired:
@@ -74,7 +75,7 @@ def run_query(q, pid, tier):
     shutil.rmtree(wd, ignore_errors=True)
     os.makedirs(wd)
     res = {'name': q.name, 'status': 'undecided', 'obligations': [], 'reason': '', 'secs': 0.0, 'solver_secs': 0.0,
-           'backend': q.backend or 'sat-minisat', 'bounded': q.bounded, 'functions': q.functions, 'provenance': [], 'wd': wd}
+           'backend': ('sat-kissat(external)' if q.backend == 'kissat' else (q.backend or 'sat-minisat')), 'bounded': q.bounded, 'functions': q.functions, 'provenance': [], 'wd': wd}
     t0 = time.time()
     try:
         gb = None
@@ -114,10 +115,12 @@ def run_query(q, pid, tier):
                 gb = 'inst.gb'
         cmd = ['cbmc', gb] + CBMC_FLAGS + ['--json-ui', '--trace', '--drop-unused-functions']
         if q.unwind:
-            cmd += ['--unwind', str(q.unwind), '--unwinding-assertions']
+            cmd += ['--unwind', str(q.unwind)] + (['--unwinding-assertions'] if q.unwind_assert else ['--no-unwinding-assertions'])
         if q.object_bits:
             cmd += ['--object-bits', str(q.object_bits)]
-        if q.backend:
+        if q.backend == 'kissat':
+            cmd += ['--external-sat-solver', 'kissat']
+        elif q.backend:
             cmd += ['--' + q.backend]
         cmd += q.extra_cbmc
         res['cmd'] = ' '.join(cmd)
@@ -284,6 +287,13 @@ def native_replay(q, ob, pid, outdir):
         return 'no-input', f'could not map counterexample to replay arguments: {e!r}'
     if argv is None:
         return 'no-input', 'counterexample does not determine the replay inputs'
+    if rp.get('premake'):
+        import fcntl
+        with open(os.path.join(BUILD, '.make.lock'), 'w') as lk:
+            fcntl.flock(lk, fcntl.LOCK_EX)
+            rc, so, se, _ = sh(['make', '-C', REPO, '-j8'] + rp['premake'], outdir, 1200)
+        if rc != 0:
+            return 'error', 'could not rebuild the libraries of /repo for the replay: ' + (se or so)[-600:]
     exe = os.path.join(outdir, 'replay_' + q.name)
     src = os.path.join(VERIF, rp['driver'])
     cmd = ['g++', '-std=c++17', '-O1', '-g', '-fsanitize=address,undefined', '-fno-sanitize-recover=undefined',
@@ -293,15 +303,21 @@ def native_replay(q, ob, pid, outdir):
     rc, so, se, _ = sh(cmd, outdir, 600)
     if rc != 0:
         return 'error', 'replay driver failed to build: ' + (se or so)[-800:]
-    rc, so, se, _ = sh([exe] + [str(a) for a in argv], outdir, 120)
+    rc, so, se, _ = sh([exe] + [str(a) for a in argv], outdir, 120, limit=False)   # (AddressSanitizer needs an unlimited address space)
     text = f"$ {os.path.basename(exe)} {' '.join(str(a) for a in argv)}\n{so}{se}"[-3000:]
     if rc == 0: return 'not-reproduced', text
-    if rc == 1 or rc < 0 or rc >= 128 or 'runtime error' in se or 'AddressSanitizer' in se: return 'reproduced', text
+    if 'failed to allocate' in se or 'ReserveShadowMemoryRange' in se: return 'error', text
+    if rc == 1 or rc < 0 or rc >= 128 or 'runtime error' in se or 'ERROR: AddressSanitizer' in se: return 'reproduced', text
     return 'error', text
 
 def run_check(pid, queries, tier, meta):
     """meta: dict(level, technique, trusted_base, assumptions, explanation)"""
     t0 = time.time()
+    # the model of libstdc++ the proofs rest on is validated on every run (differential test against the real std::vector)
+    rc_st, so_st, se_st, _ = sh(['sh', os.path.join(VERIF, 'tools', 'stub_selftest.sh')], VERIF, 300, limit=False)
+    selftest_line = (so_st.strip().split('\n') or [''])[-1]
+    if rc_st != 0:
+        print('UNDECIDED: stub self-test failed: ' + (so_st + se_st)[-400:]); return 2
     seed = int(os.environ.get('VERIF_SEED', '0') or 0)
     qs = [q for q in queries if tier == 'thorough' or q.tier == 'quick']
     if os.environ.get('VERIF_ONLY'):
@@ -424,6 +440,7 @@ def run_check(pid, queries, tier, meta):
             'explanation': meta.get('explanation', ''),
             'queries': len(results), 'queries_done': sum(1 for r in results if r['status'] == 'done'),
             'vacuity_canaries_failed_as_required': canaries,
+            'stub_model_selftest': selftest_line,
             'discharged_by_backend': backends,
             'solver_seconds_total': round(sum(r['solver_secs'] for r in results), 1),
             'functions_under_contract': funcs,
